@@ -42,6 +42,16 @@ static std::vector<i128> lattice_for(int t) {
 }
 static std::vector<i128> LAT[T_N];
 
+// A value object may be re-used (setData twice, two andReturnValue calls): what it held before must not shine through.
+static void prime(MockNamedValue& v, unsigned how) {
+    switch (how % 5) {
+    case 1: v.setValue(2.5); break;
+    case 2: v.setValue((unsigned long long) ~0ull); break;
+    case 3: v.setValue((void*) (uintptr_t) ~(uintptr_t) 0); break;
+    case 4: v.setValue((long long) LLONG_MIN); break;
+    default: break;
+    }
+}
 static void set_int(MockNamedValue& v, int t, i128 x) {
     switch (t) {
     case T_INT: v.setValue((int) x); break;
@@ -78,6 +88,7 @@ static PairIdx decode_pair(uint64_t i) {
 static void check_int_pair(vf::Ctx& c, int ta, i128 va, int tb, i128 vb) {
     c.begin([=] { return vf::J().k("ta", IT_NAME[ta]).k("a", s128(va)).k("tb", IT_NAME[tb]).k("b", s128(vb)).str(); });
     MockNamedValue A("p"), B("p");
+    prime(A, (unsigned) (c.idx % 7)); prime(B, (unsigned) (c.idx / 7 % 5));
     set_int(A, ta, va); set_int(B, tb, vb);
     bool expect = va == vb;
     bool ab = A.equals(B), ba = B.equals(A);
@@ -137,7 +148,7 @@ static void getter_body() {
 
 static void check_getter(vf::Ctx& c, int ts, i128 v, int tg) {
     c.begin([=] { return vf::J().k("stored_type", IT_NAME[ts]).k("value", s128(v)).k("getter", IT_NAME[tg]).str(); });
-    MockNamedValue V("p"); set_int(V, ts, v);
+    MockNamedValue V("p"); prime(V, (unsigned) (c.idx % 5)); set_int(V, ts, v);
     g_val = &V; g_getter = tg; g_result = 0; g_returned = false;
     {
         TestTestingFixture fx;
@@ -211,8 +222,8 @@ struct EqCmp : public MockNamedValueComparator {
 };
 int EqCmp::calls = 0;
 static void fn1() {} static void fn2() {}
-enum K { K_BOOL, K_INT, K_ULONG, K_DOUBLE, K_STR, K_PTR, K_CPTR, K_FPTR, K_MEM, K_OBJ_T1, K_OBJ_T2, K_OBJ_NOCMP, K_COBJ_T1, K_N };
-static const char* K_NAME[] = { "bool", "int", "unsigned long int", "double", "const char*", "void*", "const void*", "void (*)()", "const unsigned char*", "obj:T1", "obj:T2", "obj:NoCmp", "constobj:T1" };
+enum K { K_BOOL, K_INT, K_ULONG, K_DOUBLE, K_STR, K_PTR, K_CPTR, K_FPTR, K_MEM, K_OBJ_T1, K_OBJ_T2, K_OBJ_NOCMP, K_COBJ_T1, K_OBJ_ENDPOINT, K_OBJ_WAYPOINT, K_ULONG_ADDR, K_LONG_ADDR, K_N };
+static const char* K_NAME[] = { "bool", "int", "unsigned long int", "double", "const char*", "void*", "const void*", "void (*)()", "const unsigned char*", "obj:T1", "obj:T2", "obj:NoCmp", "constobj:T1", "obj:Endpoint", "obj:Waypoint", "unsigned long int holding an object address", "long int holding an object address" };
 static int g_objs[3] = { 7, 7, 9 };
 static char g_mem[3][4] = { { 1, 2, 3, 4 }, { 1, 2, 3, 4 }, { 1, 2, 9, 4 } };
 static char g_s[3][8] = { "abc", "abc", "abd" };
@@ -233,6 +244,11 @@ static void set_kind(MockNamedValue& v, int k, int vi, size_t memlen) {
     case K_OBJ_T2: v.setObjectPointer("T2", &g_objs[vi]); break;
     case K_OBJ_NOCMP: v.setObjectPointer("NoCmp", &g_objs[vi]); break;
     case K_COBJ_T1: v.setConstObjectPointer("T1", &g_objs[vi]); break;
+    // custom type names that END like an integer type name, and integers that hold the very address of such an object
+    case K_OBJ_ENDPOINT: v.setObjectPointer("Endpoint", &g_objs[vi == 1 ? 0 : vi]); break;
+    case K_OBJ_WAYPOINT: v.setObjectPointer("Waypoint", &g_objs[vi == 1 ? 0 : vi]); break;
+    case K_ULONG_ADDR: v.setValue((unsigned long) (uintptr_t) &g_objs[vi == 1 ? 0 : vi]); break;
+    case K_LONG_ADDR: v.setValue((long) (uintptr_t) &g_objs[vi == 1 ? 0 : vi]); break;
     }
 }
 static MockNamedValueComparatorsAndCopiersRepository* g_repo; static EqCmp g_cmp;
@@ -247,9 +263,12 @@ static void sec_cross(vf::Ctx& c) {
     set_kind(A, ka, va, la); set_kind(B, kb, vb, lb);
     bool same_content = (va == 2) == (vb == 2);
     bool expect;
-    bool intlike_a = ka == K_INT || ka == K_ULONG, intlike_b = kb == K_INT || kb == K_ULONG;
+    bool addr_a = ka == K_ULONG_ADDR || ka == K_LONG_ADDR, addr_b = kb == K_ULONG_ADDR || kb == K_LONG_ADDR;
+    bool intlike_a = ka == K_INT || ka == K_ULONG || addr_a, intlike_b = kb == K_INT || kb == K_ULONG || addr_b;
     bool obj1_a = ka == K_OBJ_T1 || ka == K_COBJ_T1, obj1_b = kb == K_OBJ_T1 || kb == K_COBJ_T1;   // both have type name "T1"
-    if (intlike_a && intlike_b) expect = same_content;
+    if (addr_a && addr_b) expect = same_content;                       // the same address as an integer: equal numbers
+    else if (intlike_a && intlike_b && (addr_a || addr_b)) expect = false;   // an address never equals 0 or 1
+    else if (intlike_a && intlike_b) expect = same_content;
     else if (obj1_a && obj1_b) expect = g_objs[va] == g_objs[vb];
     else if (ka != kb) expect = false;
     else if (ka == K_MEM) expect = la == lb && memcmp(g_mem[va], g_mem[vb], la) == 0;
@@ -259,7 +278,7 @@ static void sec_cross(vf::Ctx& c) {
     bool ab = A.equals(B), ba = B.equals(A);
     std::string tp = std::string(K_NAME[ka]) + "~" + K_NAME[kb];
     // custom-type objects of the SAME type name: the statement says nothing about them (comparator semantics) -> executed, not judged
-    bool same_object_type = (obj1_a && obj1_b) || (ka == kb && (ka == K_OBJ_T2 || ka == K_OBJ_NOCMP));
+    bool same_object_type = (obj1_a && obj1_b) || (ka == kb && (ka == K_OBJ_T2 || ka == K_OBJ_NOCMP || ka == K_OBJ_ENDPOINT || ka == K_OBJ_WAYPOINT));
     if (same_object_type) { c.count("cross_pairs_same_object_type_unjudged"); return; }
     if (ab != expect) c.violation("cross-equals-wrong:" + tp, "equals=" + std::to_string(ab) + " expected " + std::to_string(expect));
     if (ab != ba) c.violation("cross-asymmetric:" + tp, "A.equals(B) != B.equals(A)");
